@@ -3,7 +3,7 @@
    Model/C07_mro.v: c3linear_merge, Class._mro/mro, inherited_members, all_members (Griffe) and
    pmerge, mro_implementation, lookup through tp_mro (CPython, `object` elided). *)
 From Coq Require Import List ZArith String Bool Arith.
-From Verif Require Import Lib.Sexp Model.C07_mro Proofs.C07_mro Model.C07_bases Proofs.C07_bases Proofs.C07_hidden.
+From Verif Require Import Lib.Sexp Model.C07_mro Proofs.C07_mro Model.C07_bases Proofs.C07_bases Proofs.C07_hidden Proofs.C07_pyeval.
 Import ListNotations.
 Open Scope string_scope. Open Scope list_scope. Open Scope nat_scope.
 
@@ -247,3 +247,35 @@ Theorem C07_inherited_final_is_object : forall g owner n q k, member_final g own
    lookup_path false (pheap g) tgt = Found q k /\ find_obj (pheap g) q = Some k).
 Proof. exact inherited_final_object. Qed.
 Print Assumptions C07_inherited_final_is_object.
+
+(* ================================================================================================
+   The loop of resolved_bases against Python's NESTED evaluation (Model/C07_bases.v, pyfin: an assigned name denotes
+   its value wherever it stands in the chain; the value was computed on its own), for bases WITH assignments.
+   ================================================================================================ *)
+
+(* Whatever Class.resolved_bases finds for a base -- through import aliases, re-exports, module aliases, holder classes
+   AND chains of assignments -- is what the expression denotes under Python's nested evaluation; fuel (2+#objects)^2. *)
+Theorem C07_resolved_base_sound_py : forall h scope e q k, attr_leaf h ->
+  gresolve h scope e = Found q k -> not_attr k -> pyresolve h scope e = Found q k.
+Proof. exact resolved_base_sound_py. Qed.
+Print Assumptions C07_resolved_base_sound_py.
+
+(* Hence, for every list of bases: Griffe's bases are a subsequence of Python's bases ... *)
+Theorem C07_resolved_bases_subseq_py : forall h scope es bs, attr_leaf h -> map_opt (pybase h scope) es = Some bs ->
+  Subseq (gbases h scope es) bs.
+Proof. exact gbases_subseq_py. Qed.
+Print Assumptions C07_resolved_bases_subseq_py.
+
+(* ... and exactly Python's bases when every base resolves to a class. *)
+Theorem C07_resolved_bases_complete_py : forall h scope es, attr_leaf h -> forallb (kept h scope) es = true ->
+  map_opt (pybase h scope) es = Some (gbases h scope es).
+Proof. exact gbases_complete_py. Qed.
+Print Assumptions C07_resolved_bases_complete_py.
+
+(* Several classes the collection does not hold (typing.Generic, abc.ABC, ...): hidden one after the other, each last-only
+   in the table left by the previous ones (decidable, evaluated by the check on every class of every program). *)
+Theorem C07_hidden_all : forall xs t c, ordered t -> (forall x, In x xs -> cbases (nth_cls t x) = []) ->
+  c < List.length t -> ~ In c xs -> ext_last_only_all t xs c = true ->
+  griffe_full_mro (hide_all xs t) c = map_ok (drop_all xs) (cpython_mro t c).
+Proof. exact hidden_all. Qed.
+Print Assumptions C07_hidden_all.
